@@ -82,6 +82,8 @@ def gen_cases(tier, rng):
     # sources
     ns = 600 if tier == 'quick' else 6000
     cases.append('H:f=16 arg:i:i0: file:2d692035 argv:- exp:i0=5 kind:file-no-newline')
+    cases.append('H:f=16 arg:c:s0: arg:i:i0: file:%s argv:- exp:i0=17;s0=s%s kind:sources' % (A.hx('-c #ff80 -i 17\n'), A.hx('#ff80')))
+    cases.append('H:f=16 arg:n:s0: arg:i:i0: file:%s argv:- exp:i0=17;s0=s%s kind:sources' % (A.hx("-n 'issue #17' -i 17\n"), A.hx('issue #17')))
     guard = 0
     made = 0
     while made < ns and guard < ns * 30:
@@ -94,7 +96,7 @@ def gen_cases(tier, rng):
             continue
         for u in uses:
             if u.arg.kind == 's' and rng.chance(1, 2):
-                u.values = [''.join(rng.choice('ab \'"\\x') for _ in range(rng.range(1, 4)))]
+                u.values = [''.join(rng.choice('ab \'"\\x#') for _ in range(rng.range(1, 4)))]
                 if u.values[0].startswith('-'):
                     u.values = ['q' + u.values[0]]
         c1 = rng.range(0, len(uses))
